@@ -50,13 +50,50 @@ def run(rep, tier, seed):
     # AssembleFile (extract): every scenario cancelled at a random event
     bin3 = vlib.go_build("c01")
     c01.drive(rep, work, bin3, seed + 3, 2500 if thorough else 500, "assemble-cancel", extra=["-cancelevery", "1"])
+    # Tar / UnTar / UnTarIndex cancelled at the k-th write / read / chunk request; the real binary signalled at its k-th store request
+    for cfg, must_pass in (("CancelOutcome.code.cfg", True), ("CancelOutcome.nilOnCancel.cfg", False)):
+        if must_pass:
+            rep.add_tlc("CancelOutcome/%s" % cfg, vlib.tlc_design("CancelOutcome", cfg, work, workers=2, timeout=600))
+        else:
+            r = vlib.tlc("CancelOutcome", cfg, work, workers=2, timeout=600)
+            if r.ok or not r.violated:
+                raise vlib.Infra("CancelOutcome/%s must violate SuccessMeansComplete (witness)" % cfg)
+    bin4 = vlib.go_build("c07")
+    desync = vlib.build_desync(tags="")
+    tr = os.path.join(work, "cancel.ndjson")
+    p = vlib.sh([bin4, "-mode", "all", "-seed", str(seed)] + (["-thorough"] if thorough else []) + ["-out", tr, "-dir", os.path.join(work, "c07data"), "-desync", desync],
+                timeout=3400, check=False)
+    if p.returncode != 0:
+        raise vlib.Infra("driver c07 failed:\n" + p.stdout[-3000:])
+    vlib.log(p.stdout.strip().splitlines()[-1])
+    cev = vlib.read_ndjson(tr)
+    sig = [e for e in cev if e["ev"] == "signal"]
+    if sum(1 for e in sig if e["signalled"] and e["exit"] != 0) < 20 or sum(1 for e in cev if e["ev"] == "cancel" and e["err"] != "nil") < 50:
+        raise vlib.Infra("the cancellation driver did not interrupt anything: %d signal records" % len(sig))
+    cfg_text = open(os.path.join(vlib.SPEC, "cfg", "Trace_CancelOutcome.cfg")).read()
+    res, info = vlib.validate_trace("Trace_CancelOutcome", cfg_text, tr, work, timeout=1800)
+    rep.add_tlc("Trace_CancelOutcome validation", res)
+    if info["kind"] is None:
+        rep.traces += len(cev)
+    else:
+        ln = info.get("line")
+        evt = cev[ln - 1] if ln and ln <= len(cev) else None
+        rep.violation("%s | %s" % ((info.get("bad") or "")[:300], json.dumps(evt)[:400]), {"events": [evt] if evt else [], "info": info, "trace_spec": "Trace_CancelOutcome"})
+    for e in cev:
+        if e["ev"] == "cancel":
+            rep.case(["cancel", e["op"], e["n"], e["k"], e["after"]], e["k"] > 0)
+        else:
+            rep.case(["signal", e["cmd"], e["sig"], e["k"]], e["signalled"])
     rep.rule = ("case = small input x entry point in {ChopFile, Copy, ChunkStream, VerifyIndex, IndexFromFile} x 1-3 workers x cancellation "
                 "of the caller's context at the k-th recorded event (every k for small runs, bounded sample otherwise; k = 0 is "
-                "'before start') x random/PCT schedule; distinct = different event sequence; non-trivial = >= 2 units of work")
+                "'before start') x random/PCT schedule; plus Tar / UnTar / UnTarIndex (1, 3 workers) cancelled before or after their k-th write / read / chunk "
+                "request (every k for UnTarIndex, every 3rd otherwise; every k thorough) and seven commands of the real binary sent SIGINT / SIGTERM at their k-th "
+                "store request (k in 0,1,2,3,5,9,17,30,45; 0..70 thorough); distinct = different event sequence / (entry point, k); non-trivial = >= 2 units of work")
     rep.trusted = ["gate scheduler; cancellation is performed inside the scheduler's critical section, so its position in the trace is exact"]
-    rep.assumptions = ["CLI signal handling (SIGINT/SIGTERM -> context cancellation in cmd/desync/main.go) and AssembleFile/untar are "
-                       "covered by the extract/untar drivers when present in this evidence (see coverage.entry_points)"]
-    rep.extra["entry_points"] = ["ChopFile", "Copy", "ChunkStream", "VerifyIndex", "IndexFromFile", "AssembleFile"]
+    rep.assumptions = ["verify-index is covered at library level (VerifyIndex under the gate scheduler) only: the command has no observable output by which "
+                       "completeness could be judged from outside"]
+    rep.extra["entry_points"] = ["ChopFile", "Copy", "ChunkStream", "VerifyIndex", "IndexFromFile", "AssembleFile", "Tar", "UnTar", "UnTarIndex",
+                                 "desync extract / extract -k / untar -i / cache / chop / make / tar -i under SIGINT and SIGTERM"]
 
 
 def replay(path):
@@ -65,7 +102,9 @@ def replay(path):
     f = os.path.join(work, "trace.ndjson")
     ev = d["replay"]["events"]
     vlib.write_ndjson(f, ev)
-    if any(e.get("ev", "").startswith("asm.") for e in ev):
+    if any(e.get("ev", "") in ("cancel", "signal") for e in ev):
+        res, info = vlib.validate_trace("Trace_CancelOutcome", open(os.path.join(vlib.SPEC, "cfg", "Trace_CancelOutcome.cfg")).read(), f, work)
+    elif any(e.get("ev", "").startswith("asm.") for e in ev):
         res, info = vlib.validate_trace("Trace_Assemble", c01.TRACE_CFG, f, work)
     elif any(e.get("ev", "").startswith("pc.") for e in ev):
         res, info = vlib.validate_trace("Trace_ParChunker", c02.TRACE_CFG, f, work)
